@@ -46,6 +46,18 @@ func (g *Gen) ioCopy(st *State, name string, call *ssa.CallCommon, result ssa.Va
 			limRef, limKey = src.Elem.T, nKey
 		}
 	}
+	// an *io.SectionReader made by io.NewSectionReader(ra, off, n) in this frame and not read before:
+	// it delivers at most n bytes, and byte k is byte off+k of ra (rdat(ra, off+k)).
+	var sec *[3]string
+	if src.Elem != nil && src.Elem.T != "" {
+		if sr, ok := g.secReaders[src.Elem.T]; ok {
+			sec = &sr
+			inner := fmt.Sprintf("(%s %s)", availUF, src.Elem.T)
+			eff = g.def("avail", "Int", fmt.Sprintf("(ite (<= %s 0) 0 (ite (<= %s %s) %s %s))", sr[2], inner, sr[2], inner, sr[2]))
+			g.assume(st, fmt.Sprintf("(>= %s 0)", inner))
+			delete(g.secReaders, src.Elem.T) // a second read would continue at an offset this model does not track
+		}
+	}
 	g.assume(st, fmt.Sprintf("(>= %s 0)", eff))
 	n := g.newSym("copied", "Int")
 	errv := g.newSym("copyerr", "Int")
@@ -58,6 +70,11 @@ func (g *Gen) ioCopy(st *State, name string, call *ssa.CallCommon, result ssa.Va
 	}
 	data := Val{T: g.newSym("copieddata", "(Array Int Int)"), Len: n, Off: "0", Kind: "slice"}
 	g.assume(st, fmt.Sprintf("(forall ((k!cd Int)) (and (<= 0 (select %s k!cd)) (<= (select %s k!cd) 255)))", data.T, data.T))
+	if sec != nil {
+		rdat := g.uf("rdat", 2, "Int")
+		g.assume(st, fmt.Sprintf("(forall ((k!sr Int)) (! (=> (and (<= 0 k!sr) (< k!sr %s)) (= (select %s k!sr) (%s %s (+ %s k!sr)))) :pattern ((select %s k!sr))))", n, data.T, rdat, sec[0], sec[1], data.T))
+		g.trustedUsed["io.NewSectionReader(ra, off, n) + io.Copy/CopyN: delivers at most n bytes and byte k is byte off+k of ra (rdat(ra, off+k)); ReaderAt contents do not change during validation"] = true
+	}
 	g.bufAppendSeq(st, r, data)
 	if limCell != nil {
 		cv := st.cells[limCell]
@@ -74,5 +91,19 @@ func (g *Gen) ioCopy(st *State, name string, call *ssa.CallCommon, result ssa.Va
 	g.foreignErrs(st, ev)
 	g.setResult(result, Val{Kind: "tuple", Tup: []Val{intV(n), ev}})
 	g.trustedUsed["io.Copy/io.CopyN: append 0..avail(src) bytes (bounded by LimitedReader.N / the count) to the sink; without error the source is drained / exactly the count is copied"] = true
+	return true
+}
+
+// io.NewSectionReader(ra, off, n): a fresh reader whose description is remembered for ioCopy.
+func (g *Gen) newSectionReader(st *State, call *ssa.CallCommon, result ssa.Value) bool {
+	ra := g.val(st, call.Args[0])
+	off := g.val(st, call.Args[1])
+	n := g.val(st, call.Args[2])
+	r := g.freshRef(st)
+	if g.secReaders == nil {
+		g.secReaders = map[string][3]string{}
+	}
+	g.secReaders[r] = [3]string{ra.T, off.T, n.T}
+	g.setResult(result, Val{T: r, Kind: "opaque", Ty: result.Type()})
 	return true
 }
